@@ -1,5 +1,5 @@
 SPECIFICATION Spec
-CONSTANT Deep = FALSE
+CONSTANT Deep = TRUE
 INVARIANTS InvLin InvRad InvEnc InvSat InvYcc
 PROPERTIES LinStep RadDouble EncDouble SatCompose YccSwap
 CHECK_DEADLOCK FALSE
